@@ -531,6 +531,7 @@ func (ex *Exec) rangeStart(st *State, in *ssa.Range, x Value) Value {
 		id := ex.newObj(st, &IterC{IsStr: true, Str: v})
 		return &IterV{Obj: id}
 	case *MapV:
+		ex.checkProtected(st, in, v.Obj, "map range")
 		mc := ex.get(st, v.Obj).(*MapC)
 		it := &IterC{MapObj: v.Obj}
 		if mc.Arr {
@@ -879,6 +880,7 @@ func (ex *Exec) builtin(st *State, fr *Frame, site ssa.Instruction, b *ssa.Built
 			case *SliceV:
 				return x.Len
 			case *MapV:
+				ex.checkProtected(st, site, x.Obj, "map len")
 				return ex.mapLen(st, x)
 			case *ChanV:
 				return ex.chanLen(st, x)
@@ -913,6 +915,9 @@ func (ex *Exec) builtin(st *State, fr *Frame, site ssa.Instruction, b *ssa.Built
 		return ex.appendOp(st, site, args[0], args[1], et)
 	case "delete":
 		ex.withChoice(st, args[0], func(st *State, m Value) Value {
+			if mv, isMap := m.(*MapV); isMap {
+				ex.checkProtected(st, site, mv.Obj, "map delete")
+			}
 			ex.mapDelete(st, m, args[1])
 			return nil
 		})
